@@ -17,6 +17,7 @@ import GIV.Lemmas.ScriptIdx
 import GIV.Lemmas.ScriptExpandIdx
 import GIV.Lemmas.ScriptEnv
 import GIV.Lemmas.ScriptRegex
+import GIV.Lemmas.ScriptGo
 namespace GIV.C02
 open GIV GIV.Script
 
@@ -461,5 +462,43 @@ example : ∃ p, parseLine [([75], [97, 46, 98])] [36, 123, 75, 64, 82, 125] = .
 -- K = `a.b (c)`
 example : parseLine [([75], [97, 46, 98, 32, 40, 99, 41])] [36, 123, 75, 64, 82, 125] = .ok [[97, 92, 46, 98, 32, 92, 40, 99, 92, 41]] :=
   atR_expands _ [75] ⟨by decide, 75, [], rfl, by decide⟩
+
+/-! ### tie to the Go code: the regenerated translation of the tokenizer
+
+`GIV.Gen.ScriptGo` is generated on every check run from testscript/testscript.go by the Go→Lean
+translator (harness/internal/go2lean): `GIV.Go.Script.parse env line` is `(*TestScript).parse`,
+statement by statement (`none` = a Go panic or an exhausted loop budget, `.fatal` = ts.Fatalf),
+with `ts.expand` read as the model's `expand env`. -/
+
+open GIV.ScriptGo in
+/-- The translated tokenizer is the model's `parseLine` — for every environment and line. -/
+theorem go_parse_agrees (env : Env) (line : Bytes) :
+    GIV.Go.Script.parse env line = resOf (parseLine env line) := by
+  rw [parse_eq, parseIdx_eq]
+
+open GIV.ScriptGo in
+/-- The translated tokenizer never panics and never exhausts its loop budget: it returns the
+words, or reports the unterminated quote through ts.Fatalf — exactly when the two-state quote
+scan ends inside quotes. -/
+theorem go_parse_total (env : Env) (line : Bytes) :
+    (∃ args, GIV.Go.Script.parse env line = some (.ok args) ∧ unbalanced line false = false) ∨
+    (GIV.Go.Script.parse env line = some (.fatal fatalMsg) ∧ unbalanced line false = true) := by
+  rw [go_parse_agrees]
+  cases hb : unbalanced line false with
+  | false =>
+    obtain ⟨args, h⟩ := (unterminated env line).2 hb
+    exact Or.inl ⟨args, by rw [h]; rfl, rfl⟩
+  | true =>
+    have h := (unterminated env line).1.2 hb
+    exact Or.inr ⟨by rw [h]; rfl, rfl⟩
+
+open GIV.ScriptGo in
+/-- The quoting law for the translated tokenizer. -/
+theorem go_quote_law (env : Env) (ws : List Bytes) :
+    GIV.Go.Script.parse env (quotedLine ws) = some (.ok ws) := by
+  rw [go_parse_agrees, quote_law_all env ws]; rfl
+
+example : GIV.Go.Script.parse [] (lit "a 'b c' #d") = some (.ok [lit "a", lit "b c"]) := by decide +kernel
+example : GIV.Go.Script.parse [] (lit "a 'b") = some (.fatal GIV.ScriptGo.fatalMsg) := by decide +kernel
 
 end GIV.C02
